@@ -123,14 +123,38 @@ func solveOne(o *Obligation, script string, idx int, dir string, timeoutMs int, 
 		i  int
 		so solveOut
 	}
-	ch := make(chan res, len(solvers))
+	// opaque variant: recursive spec functions become uninterpreted (their assumptions stay, their unfolding goes).
+	// This only weakens the hypotheses, so an `unsat` of the variant is an `unsat` of the obligation; `sat` is ignored.
+	opaqueFile := ""
+	if o.Expect == "unsat" && strings.Contains(script, "(define-fun-rec ") {
+		opaqueFile = strings.TrimSuffix(file, ".smt2") + ".opaque.smt2"
+		if err := os.WriteFile(opaqueFile, []byte(opaqueRec(script)), 0o644); err != nil {
+			opaqueFile = ""
+		}
+	}
+	nRuns := len(solvers)
+	if opaqueFile != "" {
+		nRuns += 2
+	}
+	ch := make(chan res, nRuns)
 	for i := range solvers {
 		go func(i int) { ch <- res{i, runSolverCtx(ctx, solvers[i], file, timeoutMs)} }(i)
 	}
-	outs := make([]solveOut, len(solvers))
+	if opaqueFile != "" {
+		for k, si := range []int{0, 2} { // z3-new and z3-new-ematch
+			go func(k, si int) {
+				so := runSolverCtx(ctx, solvers[si], opaqueFile, timeoutMs)
+				if so.result != "unsat" {
+					so.result = "unknown" // a model of the weakened problem means nothing
+				}
+				ch <- res{len(solvers) + k, so}
+			}(k, si)
+		}
+	}
+	outs := make([]solveOut, nRuns)
 	got := 0
 	first := -1
-	for got < len(solvers) {
+	for got < nRuns {
 		rr := <-ch
 		got++
 		outs[rr.i] = rr.so
@@ -143,6 +167,12 @@ func solveOne(o *Obligation, script string, idx int, dir string, timeoutMs int, 
 		}
 	}
 	o.Ms = time.Since(t0).Milliseconds()
+	solverName := func(i int) string {
+		if i >= len(solvers) {
+			return []string{"z3-new", "z3-new-ematch"}[i-len(solvers)] + "(opaque-rec)"
+		}
+		return solvers[i].name
+	}
 	sawSat, sawUnsat := -1, -1
 	for i, so := range outs {
 		if so.result == "sat" && sawSat < 0 {
@@ -153,12 +183,12 @@ func solveOne(o *Obligation, script string, idx int, dir string, timeoutMs int, 
 		}
 	}
 	if sawSat >= 0 && sawUnsat >= 0 {
-		o.Result, o.Solver = "disagree", solvers[sawSat].name+"/"+solvers[sawUnsat].name
+		o.Result, o.Solver = "disagree", solverName(sawSat)+"/"+solverName(sawUnsat)
 		o.Detail = "solvers disagree (sat vs unsat)"
 		return
 	}
 	if first >= 0 {
-		o.Result, o.Solver = outs[first].result, solvers[first].name
+		o.Result, o.Solver = outs[first].result, solverName(first)
 		if outs[first].result == "sat" {
 			o.Model = modelOf(outs[first].output)
 		}
@@ -168,7 +198,7 @@ func solveOne(o *Obligation, script string, idx int, dir string, timeoutMs int, 
 	o.Solver = "none"
 	var ds []string
 	for i, so := range outs {
-		ds = append(ds, solvers[i].name+": "+so.result+" "+firstLines(so.output, 2))
+		ds = append(ds, solverName(i)+": "+so.result+" "+firstLines(so.output, 2))
 	}
 	o.Detail = strings.Join(ds, " | ")
 }
@@ -258,4 +288,73 @@ func solveAll(obls []*Obligation, dir string, timeoutMs int, workers int, agree 
 	}
 	close(ch)
 	wg.Wait()
+}
+
+// opaqueRec replaces every (single-line) `(define-fun-rec f ((p S) ...) R body)` by `(declare-fun f (S ...) R)`.
+func opaqueRec(script string) string {
+	lines := strings.Split(script, "\n")
+	for i, ln := range lines {
+		if !strings.HasPrefix(ln, "(define-fun-rec ") {
+			continue
+		}
+		rest := strings.TrimPrefix(ln, "(define-fun-rec ")
+		sp := strings.Index(rest, " ")
+		name := rest[:sp]
+		rest = rest[sp+1:]
+		// parameter list: balanced parentheses starting at rest[0]
+		depth, end := 0, -1
+		for j, c := range rest {
+			if c == '(' {
+				depth++
+			} else if c == ')' {
+				depth--
+				if depth == 0 {
+					end = j
+					break
+				}
+			}
+		}
+		if end < 0 {
+			continue
+		}
+		params := rest[1:end]
+		after := strings.TrimSpace(rest[end+1:])
+		// return sort: an identifier or a balanced parenthesised sort
+		ret := ""
+		if strings.HasPrefix(after, "(") {
+			d := 0
+			for j, c := range after {
+				if c == '(' {
+					d++
+				} else if c == ')' {
+					d--
+					if d == 0 {
+						ret = after[:j+1]
+						break
+					}
+				}
+			}
+		} else {
+			ret = after[:strings.Index(after, " ")]
+		}
+		// sorts of the parameters: each is "(name sort)"
+		var sorts []string
+		d, start := 0, -1
+		for j, c := range params {
+			if c == '(' {
+				if d == 0 {
+					start = j
+				}
+				d++
+			} else if c == ')' {
+				d--
+				if d == 0 && start >= 0 {
+					p := params[start+1 : j]
+					sorts = append(sorts, strings.TrimSpace(p[strings.Index(p, " ")+1:]))
+				}
+			}
+		}
+		lines[i] = "(declare-fun " + name + " (" + strings.Join(sorts, " ") + ") " + ret + ")"
+	}
+	return strings.Join(lines, "\n")
 }
